@@ -95,7 +95,8 @@ CLAIMS = {
             "device-raised requests and repeated Run calls; TLC expands every Run event into Steps of the specification and "
             "requires the logged error, registers, memory, port log, access count and pending request to be a result the stop "
             "rule allows.",
-            "Programs are generated (random + structured), not enumerated. Requests raised during an accepting Step are not generated.",
+            "Programs are generated (random + structured), not enumerated. A request stored by a device during an accepting Step "
+            "may be lost or kept (both admitted).",
             "DESIGN.md section 3 C08"),
     "C03": ("model_checking",
             "byte-serial composition of TLC's complete 8-bit tables (rule checked by TLC) + exhaustive Go sweep of CPU.Step over operand pairs",
@@ -147,14 +148,17 @@ CLAIMS = {
             "DD/FD pair recording + MirrorOK / NoInterf relations evaluated by TLC + trace validation of both members",
             "For all 512 DD/FD and DDCB/FDCB encodings the real CPU runs the DD form and the FD form from the exchanged state "
             "and again with the other index register changed; TLC evaluates the mirror and non-interference relations on every "
-            "recorded pair and validates both members against the specification.",
+            "recorded pair and validates both members against the specification; every pair is run again on a paging latch "
+            "(the k-th access of the Step replaces CPU.Memory, every k) and both forms must agree on which object saw which access.",
             "Exhaustive over encodings; pre-states structured + random. Pairs whose instruction reads its own prefix byte as data are skipped.",
             "DESIGN.md section 3 C11"),
     "C12": ("model_checking",
             "fuzzed Steps under recover() recorded as traces; panic/hang events have no action in the TLA+ trace spec; returned states validated by TLC",
             "Arbitrary byte strings, States (any IM), short memories, nil/short IO and arbitrary interrupt requests are "
             "stepped under recover(); every returned state is validated by TLC against StepSet (unsupported opcodes: consumed / "
-            "silicon / prefix-only); a panic is an event the specification rejects.",
+            "silicon / prefix-only); a panic is an event the specification rejects. Also: every decode point as the first "
+            "instruction of a fresh process, the bundled memory/port types attached directly with words on their last bytes, "
+            "generated Run programs (a Run that does not return counts only if the specification halts on every branch).",
             "Random exploration of an infinite input space; totality of the specification itself is checked by TLC evaluating "
             "every decode point without an evaluation gap.",
             "DESIGN.md section 3 C12"),
